@@ -308,6 +308,17 @@ class Report:
     def finish(self) -> int:
         known = {k["signature"]: k for k in load_known() if k.get("status") == "open"}
         mine = {s: v for s, v in self.violations.items() if v["property"] == self.prop}
+        want = os.environ.get("VERIF_REPLAY_SIGNATURE")
+        if want:
+            # replay mode: the same run is repeated (same tier and seed as recorded) and only the recorded signature counts
+            hit = mine.get(want)
+            if hit:
+                print(f"REPRODUCED {want}: {hit['what']} [{self.violation_counts[want]} case(s)]")
+                print(json.dumps(hit["case"], indent=1, default=repr)[:6000])
+                print(f"VIOLATION property={self.prop} replay={os.environ.get('VERIF_REPLAY_FILE', '')}")
+                return 1
+            print(f"NOT REPRODUCED {want}: the recorded violation does not occur on {REPO} (tier={self.tier} seed={self.seed})")
+            return 0
         others = {s: v for s, v in self.violations.items() if v["property"] != self.prop}
         rc = 0
         new = 0
